@@ -7,6 +7,11 @@ NPROC = int(os.environ.get("VERIF_JOBS", "16"))
 SEED = int(os.environ.get("VERIF_SEED", "0") or 0)
 
 
+REPLAY = None
+if os.environ.get("VERIF_REPLAY"):
+    REPLAY = json.load(open(os.environ["VERIF_REPLAY"]))
+
+
 def hx(b):
     return bytes(b).hex() if b is not None else None
 
@@ -29,6 +34,14 @@ class Run:
         self.assumptions = []
         self.rule = []
         self._nontrivial = set()
+        if REPLAY is None and os.path.realpath(os.environ.get("VERIF_REPO", "/repo")) == "/repo":
+            d = os.path.join(VERIF, "replays", pid)          # stale replay files of earlier runs
+            if os.path.isdir(d):
+                for f in os.listdir(d):
+                    try:
+                        os.remove(os.path.join(d, f))
+                    except OSError:
+                        pass
         kf = json.load(open(os.path.join(VERIF, "known_findings.json")))
         self.known = [k for k in kf.get("known", []) if k["property"] == pid]
 
@@ -183,11 +196,18 @@ def _worker(fn, setup, cases, idxs, slot, wfd, wid):
     os._exit(0)
 
 
+CASE_TIMEOUT = float(os.environ.get("VERIF_CASE_TIMEOUT", "1500"))
+SETUP_TIMEOUT = float(os.environ.get("VERIF_SETUP_TIMEOUT", "400"))
+
+
 def pmap(fn, cases, setup=None, nproc=None, describe=None):
     """Run fn(env, case, stats) for every case, sharded round-robin over forked workers.
     A worker that dies (sanitizer abort, VERIFY_CHECK, signal) is attributed to the case it
     was executing; that case is recorded as a crash and the rest of its shard is resumed.
-    Returns merged Stats (crashes appear in .viol)."""
+    A worker that makes no progress for CASE_TIMEOUT seconds inside a case is killed and the case is
+    recorded as a hang; a worker stuck before its first case (machinery, e.g. a fork-time lock) is
+    respawned.  Returns merged Stats (crashes/hangs appear in .viol)."""
+    import select
     nproc = nproc or NPROC
     cases = list(cases)
     total = Stats()
@@ -197,12 +217,16 @@ def pmap(fn, cases, setup=None, nproc=None, describe=None):
     shards = [list(range(w, len(cases), nproc)) for w in range(nproc)]
     t0 = time.time()
     slot = mmap.mmap(-1, 8 * nproc)
-    pending = list(enumerate(shards))
-    while pending:
-        procs = []
-        for wid, idxs in pending:
-            if not idxs:
-                continue
+    pending = [(wid, idxs, 0) for wid, idxs in enumerate(shards) if idxs]
+    active = {}
+    crashes = 0
+
+    def cur_of(wid):
+        slot.seek(wid * 8)
+        return struct.unpack("<q", slot.read(8))[0]
+
+    while pending or active:
+        for wid, idxs, tries in pending:
             r, w = os.pipe()
             slot.seek(wid * 8)
             slot.write(struct.pack("<q", -1))
@@ -211,42 +235,70 @@ def pmap(fn, cases, setup=None, nproc=None, describe=None):
             pid = os.fork()
             if pid == 0:
                 os.close(r)
+                for fd in list(active):
+                    try:
+                        os.close(fd)
+                    except OSError:
+                        pass
                 _worker(fn, setup, cases, idxs, slot, w, wid)
             os.close(w)
-            procs.append((wid, idxs, pid, r))
+            active[r] = {"wid": wid, "idxs": idxs, "pid": pid, "data": bytearray(), "last": -1, "t": time.time(), "hung": False, "tries": tries}
         pending = []
-        for wid, idxs, pid, r in procs:
-            with os.fdopen(r, "rb") as f:
-                data = f.read()
-            _, status = os.waitpid(pid, 0)
-            slot.seek(wid * 8)
-            cur = struct.unpack("<q", slot.read(8))[0]
-            if data:
-                st = pickle.loads(data)
+        ready, _, _ = select.select(list(active), [], [], 5.0)
+        now = time.time()
+        for fd in ready:
+            chunk = os.read(fd, 1 << 20)
+            a = active[fd]
+            if chunk:
+                a["data"] += chunk
+                a["t"] = now
+                continue
+            # EOF: worker finished or died
+            os.close(fd)
+            del active[fd]
+            _, status = os.waitpid(a["pid"], 0)
+            wid, idxs = a["wid"], a["idxs"]
+            cur = cur_of(wid)
+            if a["data"]:
+                st = pickle.loads(bytes(a["data"]))
                 if isinstance(st, tuple):
                     raise RuntimeError("worker exception (machinery error):\n" + st[1])
                 total.merge(st)
+                continue
+            if cur < 0:
+                if a["hung"] and a["tries"] < 3:
+                    pending.append((wid, idxs, a["tries"] + 1))
+                    continue
+                raise RuntimeError("worker died outside a case (status %r)" % status)
+            sig = os.WTERMSIG(status) if os.WIFSIGNALED(status) else 0
+            total.cases += idxs.index(cur) + 1
+            total.cur = cases[cur]
+            if a["hung"]:
+                total.fail("no progress for %d s inside this case (hang / non-termination); worker killed" % CASE_TIMEOUT,
+                           describe(cases[cur]) if describe else cases[cur])
+                total.count("hang")
             else:
-                # died: attribute to case `cur`
-                if cur < 0:
-                    raise RuntimeError("worker died outside a case (status %r)" % status)
-                sig = os.WTERMSIG(status) if os.WIFSIGNALED(status) else 0
-                total.cases += idxs.index(cur) + 1
-                total.cur = cases[cur]
                 total.fail("process died (signal %d, exit %d) while executing this case: sanitizer report, VERIFY_CHECK, or crash"
                            % (sig, os.WEXITSTATUS(status) if os.WIFEXITED(status) else -1),
                            describe(cases[cur]) if describe else cases[cur])
                 total.count("crash")
-                rest = idxs[idxs.index(cur) + 1:]
-                if rest and len([v for v in total.viol]) < 20:
-                    pending.append((wid, rest))
+            crashes += 1
+            rest = idxs[idxs.index(cur) + 1:]
+            if rest and crashes < 20:
+                pending.append((wid, rest, 0))
+        for fd, a in active.items():
+            c = cur_of(a["wid"])
+            if c != a["last"]:
+                a["last"] = c
+                a["t"] = now
+            elif not a["hung"] and now - a["t"] > (SETUP_TIMEOUT if c == -1 else CASE_TIMEOUT) and c != -2:
+                a["hung"] = True
+                try:
+                    os.kill(a["pid"], signal.SIGKILL)
+                except OSError:
+                    pass
     total.wall = time.time() - t0
     return total
-
-
-REPLAY = None
-if os.environ.get("VERIF_REPLAY"):
-    REPLAY = json.load(open(os.environ["VERIF_REPLAY"]))
 
 
 def run_phase(run, name, fn, cases, setup=None, rule=None, nproc=None, exhaustive=True, describe=None, extra=None):
